@@ -64,13 +64,13 @@ namespace fp = fcppt::parse;
 // alphabet: the four characters of the property statement first, then two extras used by the
 // random section and as "never in the text" expectations
 char const alphabet[] = {'a', '\n', ' ', '\t', 'b', 'c'};
-// In the wchar_t instantiation the extra 'b' is U+010A instead: a character that is not a newline
+// In the char instantiation the extra 'b' is the byte 0xFF (char(-1): a comparison of a narrowed
+// character with EOF would take it for the end of input); in the wchar_t instantiation it is U+010A: a character that is not a newline
 // but whose low byte is 0x0A (a newline test that goes through a narrower type would count it).
 template <typename Ch>
 Ch alpha(std::size_t i)
 {
-  if constexpr (sizeof(Ch) > 1)
-    if (i % 6 == 4) return static_cast<Ch>(0x010A);
+  if (i % 6 == 4) return sizeof(Ch) > 1 ? static_cast<Ch>(0x010A) : static_cast<Ch>(0xFF); // char: the byte that equals EOF when narrowed
   return static_cast<Ch>(alphabet[i % 6]);
 }
 template <typename Ch>
